@@ -107,7 +107,7 @@ ALPHA = None
 
 
 def solo_rec(ev):
-    return {"call": ev["call"], "ret": ev["ret"], "failed": ev["exc"] != ""}
+    return {"call": ev["call"], "ret": ev["ret"], "failed": ev["exc"] != "", "anntags": ev.get("anntags", [])}
 
 
 def solo_main():
@@ -120,6 +120,10 @@ def solo_main():
         res = []
         for i, h in enumerate(hists):
             try:
+                # "alone": the per-thread table of variable annotations starts empty, as it does in a new thread
+                import claripy
+                claripy.backends.z3.downsize()           # conversion caches are per thread as well
+                claripy.backends.z3.bvs_annotations.clear()
                 tr, S, meta = W.run_history(h, ALPHA["vars"], f"solo-{g}-{i}", {})
                 A = {"vars": ALPHA["vars"], "W": ALPHA["vars"][0][1], "exprs": ALPHA["exprs"]}
                 tr["ev"].extend(W.continue_history(W.probe_battery(A, sorted(S), i % 3), S, meta, ALPHA["vars"], {}))
@@ -156,7 +160,12 @@ def main():
         hists = []
         for _ in range(n):
             cls, kw = rng.choice(classes)
-            hists.append(W.random_history(rng, ALPHA, cls, kw, rng.randint(3, job.get("len", 8)), truthy=(g % 2 == 1)))
+            # every other thread states its constraints over annotated variables of the same names; simplify() is frequent
+            h = W.random_history(rng, ALPHA, cls, kw, rng.randint(3, job.get("len", 8)), truthy=(g % 2 == 1),
+                                 annotvar=(len(hists) % 2 == 0 and g % 3 == 0 and cls in ("Solver", "SolverCacheless", "SolverComposite")))
+            if g % 3 == 0:
+                h += [["simplify", 0], ["satisfiable", 0, []], ["simplify", 0]]
+            hists.append(h)
         schedule = None
         switch = None
         if job["mode"] == "baton":
